@@ -276,7 +276,7 @@ ROUND6 = {
  "C11": ("", "Round 6: the text-log processor combines no window bound with the file's modification time, also through date arithmetic (R11.11 <- C03 R3.9)."),
  "C12": ("", "Round 6: whether a message is cut at the end of block zero does not depend on where the block ends (R12.2 <- C02 R2.9)."),
  "C13": ("", "Round 6: the zone of the datetime field never derives from --tz-offset (R13.17); prepend zone and format reach the printers under their own parameter (R13.16); the escape table of --separator is injective and has C's values (R13.18)."),
- "C14": ("; reachability through thread-local initialisers and clap's derive", "Round 6: a bare date that is built directly becomes midnight in the --tz-offset zone (R14.2 clause); the start instant is captured before the first read of standard input (R14.14)."),
+ "C14": ("; reachability through thread-local initialisers and clap's derive", "Round 6: a bare date that is built directly becomes midnight in the --tz-offset zone (R14.2 clause); the start instant is captured before the first read of standard input (R14.14); the range-checked terms of a relative offset are added with checked arithmetic (R14.15)."),
  "C16": ("", "Round 6: the name of a tar member that is classified comes from the archive entry alone (R16.13)."),
  "C17": ("", "Round 6: the window search of the streaming stage runs once per call and bisects plain files (R17.9, with the lift of C03 R3.3)."),
  "C18": ("", "Round 6: outside the signal handler the temp-file list only grows - no positional removal (R18.9)."),
